@@ -678,8 +678,13 @@ def c10_binary(V, tier):
                 srv.wait_log("Workspace scan complete", also_fail="Workspace scan failed")
 
             def names():
+                # the document's own symbols AND every workspace symbol that is not a filler: an entry of this document
+                # recorded under another key (another spelling of its path) shows up only in the second list
                 syms = srv.doc_request("textDocument/documentSymbol", f) or []
-                return sorted(s["name"] for s in syms)
+                ws = srv.request("workspace/symbol", {"query": ""}) or []
+                both = sorted(s["name"] for s in syms)
+                rest = sorted(s["name"] for s in ws if not s["name"].startswith("fill_"))
+                return both if both == rest else {"document": both, "workspace": rest}
             first = names()
             srv.did_change(f, buf2, version=2)
             after = names()
@@ -705,7 +710,7 @@ def c10_binary(V, tier):
             V.violation(ex, "one further change notification does not restore the single-analysis state (real binary)")
         if r["first"] != want:
             # the scan visited the file after the notification: editor's definitions plus the on-disk ones
-            predicted = early and sorted(r["first"]) == sorted(want + ["on_disk"])
+            predicted = early and isinstance(r["first"], list) and sorted(r["first"]) == sorted(want + ["on_disk"])
             if predicted:
                 V.classify(["scan_no_cleanup_same_file"], ex, "after scan and didOpen the document's symbols are not the editor's content exactly once")
             else:
